@@ -107,7 +107,10 @@ where
         for<'a> TransposeFrom<&'a BitDecomposed<Replicated<Boolean, B>>, Error = LengthError>,
     DZKPUpgraded<C>: ShardedContext,
 {
-    if input_rows.is_empty() {
+    // Only a helper that runs a single shard may answer an empty query right away. With
+    // more shards, the shuffles, the resharding and the finalization below are collective:
+    // the other shards wait for this one, no matter how many rows it holds.
+    if input_rows.is_empty() && usize::from(ctx.shard_count()) == 1 {
         return Ok(vec![Replicated::ZERO; B]);
     }
 
